@@ -71,6 +71,11 @@ checks = {
    text=WHOLE + "decided for every path of all 28 printers: each recorded mapping uses a token field's Start and is immediately followed by that token's own text (constant whose first lexeme has a type the parser stores in that field, a field filled from the token's literal, or the opening quote of its class); only the identifier printer reads Identifier.Value and its segment is named with what it writes; every byte appended to the buffer is followed by a mapper advance of the same content and pending layout is flushed before a mapping is recorded; token starts are read before any advance (shared with C10); the mapper's position only moves forward and mappings are appended with the current position. The mapping/space order defect and the unaccounted layout/comment bytes found here are repaired by fix: commits. Decoding the map is not done.",
    ref="DESIGN.md §3 C08",
    note="Trusted: go/types, go/ssa; the printers are structured code (if/range/early return) - anything else fails closed. The post-pass that trims lines after positions were recorded is a C06 finding."),
+ "C15": dict(
+   technique="path enumeration over printer event trees (replay-before-use, at-most-once), list-terminator carrier rule (parser fills / printer replays), dominance rules on the replay method (pretty-only writes, forced line break), byte-set facts for trivia collection",
+   text=WHOLE + "decided is which tokens carry comments and who replays them, on every path: every parser-filled token field is replayed before it is mapped/written and never twice; every node's first byte follows a replay or a delegation to its leftmost child; statement-list nodes keep and replay the token that ends the list (the missing end-of-input carrier found here is repaired by a fix: commit); replay writes are pretty-only and LeadingComments is read nowhere else; a replay that wrote anything forces a pending line break and only flush/WriteNewline/replay may clear pending layout; the skipper resets the list, appends an empty element exactly on a line break and, per comment, exactly the bytes it advanced over. Textual placement in the output is not compared.",
+   ref="DESIGN.md §3 C15",
+   note="Trusted: go/types, go/ssa, the event-tree extractor (structured printers only). Precedence-guard parentheses are exempt from 'first byte' because they never occur for parsed trees."),
 }
 na_pending = "rule set designed in DESIGN.md §3 but not yet armed in xjscheck; not claimed until it is silent on the unchanged tree and shown to fire on seeded variants"
 all_ids = ["C%02d" % i for i in range(1, 17)]
